@@ -273,7 +273,7 @@ class Exec:
 
     def binop(self, op, a, b, st, node=None):
         a, b = lift(a), lift(b)
-        seqlike = lambda x: isinstance(x, PyTup) or (isinstance(x, V) and (x.ty is STR or isinstance(x.ty, (SeqT, ListT, DictT))))
+        seqlike = lambda x: isinstance(x, (PyTup, PyIte)) or (isinstance(x, V) and (x.ty is STR or isinstance(x.ty, (SeqT, ListT, DictT))))
         if isinstance(op, ast.Add) and seqlike(a) and seqlike(b):
             return concat(a, b)
         if isinstance(op, ast.Mod) and isinstance(a, V) and a.ty is STR:
@@ -431,6 +431,42 @@ class Exec:
 
     def ev_GeneratorExp(self, node, st):
         return self.comp_fold(node, st, "list")
+
+    def _pykey(self, v):
+        v = lift(v)
+        if isinstance(v, V):
+            t = z3.simplify(v.t)
+            if v.ty is STR and z3.is_string_value(t):
+                return t.as_string()
+            if v.ty is INT and z3.is_int_value(t):
+                return t.as_long()
+            if isinstance(v.ty, EnumT):
+                for pv in v.ty.values:
+                    if t.eq(v.ty.const(pv)):
+                        return pv
+        raise Unsupported("dict key is not a constant")
+
+    def ev_Dict(self, node, st):
+        items = {}
+        for k, v in zip(node.keys, node.values):
+            if k is None:
+                raise Unsupported("dict unpacking")
+            items[self._pykey(self.ev(k, st))] = self.ev(v, st)
+        return PyDict(items)
+
+    def ev_DictComp(self, node, st):
+        if len(node.generators) != 1 or node.generators[0].ifs:
+            raise Unsupported("dict comprehension shape")
+        g = node.generators[0]
+        it = lift(self.ev(g.iter, st))
+        if not isinstance(it, PyTup):
+            raise Unsupported("dict comprehension over a symbolic iterable")
+        items = {}
+        for x in it.items:
+            sub = st.copy()
+            self.bind_target(g.target, x, sub)
+            items[self._pykey(self.ev(node.key, sub))] = self.ev(node.value, sub)
+        return PyDict(items)
 
     def ev_Lambda(self, node, st):
         env = dict(st.env)
@@ -604,7 +640,7 @@ class Exec:
         if name == "lower" and not args:
             return V(STR, str_lower()(s))
         if name == "format":
-            return self.opaque_fmt("format", recv, PyTup(args))
+            return self.opaque_fmt("format", recv, PyTup([a[1] if isinstance(a, tuple) else a for a in args]))
         if name == "replace" and len(args) == 2:
             return V(STR, z3.Function("str_replace_all", z3.StringSort(), z3.StringSort(), z3.StringSort(), z3.StringSort())
                      (s, coerce(args[0], STR).t, coerce(args[1], STR).t))
@@ -646,6 +682,8 @@ class Exec:
         if isinstance(target, (ast.Subscript, ast.Attribute)):
             self.check_mutation(target, st)
         if isinstance(target, ast.Name):
+            if ("old:" + target.id) in st.env and not getattr(self.ctx, "spec_mode", False):
+                st.env["__rebound__"] = frozenset(set(st.env.get("__rebound__", ())) | {target.id})
             decl = (self.ctx.contract.locals or {}).get(target.id)
             if decl is None:
                 cur = st.env.get(target.id)
@@ -762,7 +800,7 @@ def lift_ns(x):
     from .dsl import SpecFn, Opaque, Lazy
     if isinstance(x, Lazy):
         x = x.get()
-    if isinstance(x, (V, PyTup, PyFn, PyConstObj, DictItems)):
+    if isinstance(x, (V, PyTup, PyFn, PyConstObj, DictItems, PyDict, PyIte)):
         return x
     if isinstance(x, SpecFn):
         return PyFn(x.name, x.sym_call)
